@@ -16,6 +16,12 @@ use std::panic::{catch_unwind, AssertUnwindSafe};
 use std::str::FromStr;
 use vibesql_types::{Date, Interval, Time, Timestamp};
 
+/// message and location of the last panic of the code under test (the panic hook stores it; panics are data)
+static LAST_PANIC: std::sync::Mutex<String> = std::sync::Mutex::new(String::new());
+fn take_panic() -> String {
+    std::mem::take(&mut *LAST_PANIC.lock().unwrap_or_else(|e| e.into_inner()))
+}
+
 fn gi(v: &Value, k: &str) -> i64 {
     v[k].as_i64().unwrap_or(0)
 }
@@ -242,7 +248,9 @@ fn step(a: &Value) -> Value {
 }
 
 fn main() {
-    vq::quiet_panics();
+    std::panic::set_hook(Box::new(|info| {
+        *LAST_PANIC.lock().unwrap_or_else(|e| e.into_inner()) = info.to_string();
+    }));
     let args: Vec<String> = std::env::args().collect();
     let (mut inp, mut out, mut cfg) = (String::new(), String::new(), "default".to_string());
     let mut i = 1;
@@ -263,7 +271,9 @@ fn main() {
         vq::write_line(&mut w, &json!({"a": {"a": "reset"}, "sc": id, "i": 0, "cfg": cfg, "out": "ok", "sql": "-- reset"}));
         if let Some(steps) = sc["steps"].as_array() {
             for (k, a) in steps.iter().enumerate() {
+                take_panic();
                 let mut ev = step(a);
+                ev["msg"] = json!(take_panic());
                 ev["a"] = a.clone();
                 ev["sc"] = id.clone();
                 ev["i"] = json!(k + 1);
